@@ -560,6 +560,8 @@ func (e *Engine) joinStrings(st *State, s, sep *Term) *Term {
 	e.leafComp("E:string", types.Typ[types.String])
 	r := uf("strJoin", StringS, e.comp(st, "E:string"), SliceBase(s), SliceOff(s), SliceLen(s), sep)
 	e.axiomQ(Implies(Eq(SliceLen(s), IntT(0)), Eq(r, StrT(""))))
+	// Join(s, sep) ++ sep is the concatenation of item ++ sep over the items
+	e.axiomQ(Implies(Gt(SliceLen(s), IntT(0)), Eq(Concat(r, sep), e.strEach(st, StrT(""), sep, s))))
 	e.note("model:strings.Join as an uninterpreted fold over the slice")
 	return r
 }
